@@ -196,9 +196,9 @@ IsLiteralExpr(e) ==      \* left.canonical_path in {"typing.Literal", "typing_ex
   \/ e.c = "ExprAttribute" /\ Len(e.kids) = 2 /\ e.kids[1].c = "ExprName" /\ e.kids[1].op = "t"
        /\ e.kids[2].c = "ExprName" /\ e.kids[2].op = "Literal"
 
-\* ---- repairs.  a..h, p are commits of /repo: they ARE the transcribed code (Has = TRUE unless reverted in the
-\* model-only regression domain); q..v are proposed_fixes/C03-<letter>-*.diff, in effect once their finding is "fixed".
-Applied == {"a", "b", "c", "d", "e", "f", "g", "h", "p"}
+\* ---- repairs.  All of a..h, p, q..v are commits of /repo: they ARE the transcribed code (Has = TRUE unless reverted in the
+\* model-only regression domain).  A future proposed repair gets a new letter outside Applied and is switched on by Fixed.
+Applied == {"a", "b", "c", "d", "e", "f", "g", "h", "p", "q", "r", "s", "t", "u", "v"}
 Has(x) == IF x \in Applied THEN x \notin Reverted ELSE x \in Fixed
 FixDictCompSpace == Has("a")     \* e0077b0 ExprDictComp.iterate yields " " before the generators
 FixDictUnpack    == Has("b")     \* d7f44f0 ExprDict.iterate renders a None key as `**value`
